@@ -8,6 +8,8 @@
   is stable (`C03_stable`).  That fault-free operation reaches it within a bounded number of cycles
   is explored by the `loop` engine with injected faults, every history being replayed on `Loop.step`.
 -/
+import Kvass.Pins.Coord
+import Kvass.Pins.Sidecar
 import Kvass.Props.C03
 
 namespace Kvass.Props.C06
@@ -82,5 +84,32 @@ theorem C06_recovered_stable (swr : Swr) (sc : Sched) (inp : Input) (q : Quiet s
     (cycle swr sc inp).scales = [(inp.probes.length : Int)] ∧
     ∀ (i : Nat) (p : Probe), inp.probes[i]? = some p →
       (cycle swr sc inp).reqs[i]? = some (quietReqs (reported p)) := C03.C03_stable swr sc inp q
+
+/-! ### the same repairs carried through both loops of `gcTargets` (see `Props.C03`) -/
+
+/-- no target stays marked in-transfer for ever: after one pass of `gcTargets` over a report in
+    which shard `i` alone (among the in-sync shards) holds `h`, in transfer, scraped three times,
+    shard `i` holds it in normal state -/
+theorem C06_gc_lonely_reverts (o : Opt) (active : List Hash) (ss0 : List SI) (i : Nat) (si : SI) (h : Hash) (vi : St)
+    (hnd0 : ∀ (k : Nat) (s : SI), ss0[k]? = some s → s.scraping.keys.Nodup)
+    (hact : h ∈ active) (hi : ss0[i]? = some si) (hci : si.changeable = true) (hgi : si.scraping.get h = some vi)
+    (hst : vi.state = .inTransfer) (h3 : 3 ≤ vi.times)
+    (halone : ∀ (k : Nat) (sk : SI), ss0[k]? = some sk → k ≠ i → sk.changeable = true → sk.scraping.get h = none) :
+    entry (gc o active ss0) i h = some (revertSt vi) ∧ (revertSt vi).state = .normal :=
+  C03.C03_gc_lonely_reverts o active ss0 i si h vi hnd0 hact hi hci hgi hst h3 halone
+
+/-- none stays duplicated for ever: a target held twice in normal state is dropped on exactly one
+    side by one pass of `gcTargets` -/
+theorem C06_gc_duplicate_resolved (o : Opt) (active : List Hash) (ss0 : List SI) (i j : Nat) (si sj : SI) (h : Hash) (vi vj : St)
+    (hnd0 : ∀ (k : Nat) (s : SI), ss0[k]? = some s → s.scraping.keys.Nodup)
+    (hact : h ∈ active) (hij : i < j)
+    (hi : ss0[i]? = some si) (hci : si.changeable = true) (hgi : si.scraping.get h = some vi)
+    (hsti : vi.state = .normal) (h3i : 3 ≤ vi.times)
+    (hj : ss0[j]? = some sj) (hcj : sj.changeable = true) (hgj : sj.scraping.get h = some vj)
+    (hstj : vj.state = .normal) (h3j : 3 ≤ vj.times)
+    (hothers : ∀ (k : Nat) (sk : SI), ss0[k]? = some sk → k ≠ i → k ≠ j → sk.changeable = true → sk.scraping.get h = none) :
+    (Gen.gcLess o si.rt sj.rt i j = true → entry (gc o active ss0) i h = none ∧ entry (gc o active ss0) j h = some vj) ∧
+    (Gen.gcLess o si.rt sj.rt i j = false → entry (gc o active ss0) i h = some vi ∧ entry (gc o active ss0) j h = none) :=
+  C03.C03_gc_duplicate_resolved o active ss0 i j si sj h vi vj hnd0 hact hij hi hci hgi hsti h3i hj hcj hgj hstj h3j hothers
 
 end Kvass.Props.C06
